@@ -100,7 +100,26 @@ def _cases(src, pres, nd):
             yield {"source": src, "expr": f"da.map_blocks(uf.rec_dropaxis, ({p}).rechunk({{0: -1}}), dtype='f8', drop_axis=0)", "nexpr": f"({pn}).sum(axis=0)", "label": f"{pname}>dropaxis>id", "pre": f"({p}).rechunk({{0: -1}})", "fn": "info", "exact": False, "np_raises_must_raise": False, "may_refuse": ["ValueError"]}
 
 
+QUICK_PERMS = [(1, 0, 2, 4, 3, 5), (4, 3, 5, 0, 2, 1), (0, 1, 5, 2, 4, 3), (5, 4, 3, 2, 1, 0), (2, 0, 1, 5, 3, 4), (3, 5, 4, 1, 0, 2)]
+SWEEP_SLICES = [(3, 6), (1, 5), (1, 6), (2, 6), (0, 3), (0, 4), (2, 5)]
+
+
+def _takeslice_cases(shard):
+    """A slice on top of a take on the same axis, consumed by a block-dependent
+    function: every permutation index (thorough) x slices x every chunking."""
+    src = E.src((6,), (tuple(shard["chunks"][0]),))
+    perms = QUICK_PERMS if shard["tier"] == "quick" else list(itertools.permutations(range(6)))[shard["part"] :: shard["parts"]]
+    for idx in perms:
+        for i, j in SWEEP_SLICES[:2] if shard["tier"] == "quick" else SWEEP_SLICES:
+            p, pn = f"x[{list(idx)}][{i}:{j}]", f"a[{list(idx)}][{i}:{j}]"
+            f, fnn = FNS["demean"]
+            yield {"source": src, "expr": f.format(p=p), "nexpr": fnn.format(pn=pn, p=p), "label": "take-slice-sweep>demean>id", "pre": p, "fn": "demean", "exact": False, "np_raises_must_raise": False, "may_refuse": []}
+
+
 def gen_cases(shard):
+    if shard.get("what") == "takeslice":
+        yield from _takeslice_cases(shard)
+        return
     src = E.src(tuple(shard["shape"]), tuple(tuple(c) for c in shard["chunks"]))
     nd = len(shard["shape"])
     yield from _cases(src, PRE_1D if nd == 1 else PRE_2D, nd)
@@ -114,6 +133,10 @@ def plan_shards(tier):
     c2 = list(itertools.product(compositions(3), compositions(4)))
     for c in c2 if tier != "quick" else c2[::8]:
         shards.append({"shape": [3, 4], "chunks": [list(k) for k in c]})
+    parts = 1 if tier == "quick" else 4
+    for c in chs:
+        for part in range(parts):
+            shards.append({"what": "takeslice", "shape": [6], "chunks": [list(c)], "tier": tier, "part": part, "parts": parts})
     return shards
 
 
@@ -163,7 +186,7 @@ def _extra(case, y, val, ref, a, x):
 
 _m = CC.make(
     "C20", gen_cases, plan_shards,
-    rule="programs post(map_blocks(rec_fn, pre(x))) for every pre in {identity, rechunks, slices, concatenate, take, elemwise of differently chunked leaves, sliding-window reductions, cumsum, reshape, broadcast_to, transpose, reductions, diff, roll} x rec_fn consuming block_info / block_id / both / with explicit chunks= / two inputs / new_axis / drop_axis x post in {identity, slices, rechunk, reduction, elemwise with a sibling, take, concatenate} over every chunking of (6,) and (3,4): inside the function every invocation's chunk-location, array-location, chunk-shape, num-chunks, shape and the shape of the block received equal the layout pre(x).chunks advertised at the call; values equal NumPy. Non-trivial = multi-block source",
+    rule="programs post(map_blocks(rec_fn, pre(x))) for every pre in {identity, rechunks, slices, concatenate, take, elemwise of differently chunked leaves, sliding-window reductions, cumsum, reshape, broadcast_to, transpose, reductions, diff, roll} x rec_fn consuming block_info / block_id / both / with explicit chunks= / two inputs / new_axis / drop_axis x post in {identity, slices, rechunk, reduction, elemwise with a sibling, take, concatenate} over every chunking of (6,) and (3,4): inside the function every invocation's chunk-location, array-location, chunk-shape, num-chunks, shape and the shape of the block received equal the layout pre(x).chunks advertised at the call; values equal NumPy; plus a sweep map_blocks(block-dependent fn, x[perm][i:j]) over every chunking of (6,) x permutation indices (6 in quick, all 720 in thorough) x slices. Non-trivial = multi-block source",
     assumptions=["calls on empty blocks (meta inference) are ignored", "blocks culled by a slice above need not be invoked; every invocation must be consistent"],
     floors={"accepted": 1500},
     extra=_extra,
